@@ -572,6 +572,11 @@ def pil_fault_sweep(case, env, res, ctx):
             image = cls(caller, width=3, height=2)
         else:
             image = cls.from_file(path, width=3, height=2)
+        if case.get("size_enum"):
+            # a dynamic size: computed for every render, the *setting* must survive a failure
+            from term_image.image import Size
+
+            image.size = getattr(Size, case["size_enum"])
         size0, tell0 = image.size, image.tell()
         faults.arm(k)
         outcome = "ok"
@@ -656,7 +661,7 @@ def gen_fault(rnd):
     style = rnd.choice(["block", "kitty", "iterm2"])
     n = rnd.choice([1, 1, 2, 3])
     spec = rnd.choice(["1.1", "1.1#", "1.1##", "1.1#102030"]) + ({"block": "", "kitty": rnd.choice(["", "+W", "+L"]), "iterm2": rnd.choice(["", "+W", "+L", "+A"])}[style])
-    return dict(kind="pil-fault", style=style, frames=n, mode=rnd.choice(["RGB", "RGBA", "L", "LA", "P", "1"]), spec=spec, source=rnd.choice(["file", "pil"]), what=rnd.choice(["format", "format", "iterate", "draw"]), cached=rnd.choice([True, False]), seed=rnd.getrandbits(32))
+    return dict(kind="pil-fault", style=style, frames=n, mode=rnd.choice(["RGB", "RGBA", "L", "LA", "P", "1"]), spec=spec, source=rnd.choice(["file", "pil"]), what=rnd.choice(["format", "format", "iterate", "draw"]), cached=rnd.choice([True, False]), size_enum=rnd.choice([None, None, "FIT", "AUTO", "ORIGINAL"]), seed=rnd.getrandbits(32))
 
 
 def run_shard(shard, env):
